@@ -124,6 +124,10 @@ class Explorer(object):
         self._marks = (len(w.exceptions), len(w.msg_log), len(w.run_log))
         return ne, nm, nr
 
+    def _dump(self):
+        d = getattr(self.scn, 'dump', None)
+        return d() if d else env.dump_tables()
+
     def _hash(self, snap):
         return env.state_hash_of(snap, self.scn.extra_state(),
                                  keep_clock=self.scn.hash_clock)
@@ -161,7 +165,7 @@ class Explorer(object):
         t0 = time.time()
         self.scn.setup()
         self._drain()
-        snap = env.dump_tables()
+        snap = self._dump()
         h = self._hash(snap)
         b0 = 10 ** 6 if self.bound is None else self.bound
         self.visited[h] = b0
@@ -186,22 +190,29 @@ class Explorer(object):
                 self._capped('max_states')
                 self.stop = True
                 return
-            choices = self._choices()
-            if not choices:
+            real = env.enabled_choices()
+            exts = self.scn.externals()
+            if not real:
                 t = env.next_clock_event()
-                if t is not None:
-                    if t > self.scn.horizon_clock:
-                        if getattr(self.scn, 'horizon_is_terminal', False):
-                            self._terminal(path, hpath, snap)
-                        else:
-                            self._capped('horizon_clock')
+                if t is not None and t <= self.scn.horizon_clock:
+                    # time passes (default) or an operator command / fault
+                    # lands first
+                    choices = [env.Choice('T%d' % t, 'clock', t, 0,
+                                          'clock -> t=%d' % t, cost=0)]
+                    choices.extend(exts)
+                else:
+                    if t is not None and not getattr(
+                            self.scn, 'horizon_is_terminal', False):
+                        self._capped('horizon_clock')
                         return
-                    env.set_clock(t)
-                    path.append('T%d' % t)
-                    hpath.append(None)
-                    continue
-                self._terminal(path, hpath, snap)
-                return
+                    # quiescent: a terminal state of the run in which no
+                    # further command is issued
+                    self._terminal(path, hpath, snap)
+                    if not exts or self.stop:
+                        return
+                    choices = exts
+            else:
+                choices = real + exts
             if len(path) >= self.scn.horizon_steps:
                 self._capped('horizon_steps')
                 self._violation(path, ['run does not quiesce within %d steps'
@@ -235,15 +246,14 @@ class Explorer(object):
 
     def _do_step(self, path, hpath, c, snap, budget_left):
         pre = snap
-        try:
-            if c.kind == 'ext':
-                c.obj()
-                env.eager_closure()
-            else:
-                env.step(c)
-        except env.HarnessError:
-            raise
-        post = env.dump_tables()
+        if c.kind == 'ext':
+            c.obj()
+            env.eager_closure()
+        elif c.kind == 'clock':
+            env.set_clock(c.obj)
+        else:
+            env.step(c)
+        post = self._dump()
         path.append(c.label)
         self.res.stats['transitions'] += 1
         ne, nm, nr = self._drain()
@@ -356,7 +366,8 @@ def replay(scn, labels, check=True):
         return ne, nm, nr
 
     drain()
-    snap = env.dump_tables()
+    _dump = getattr(scn, 'dump', None) or env.dump_tables
+    snap = _dump()
     hashes = [env.state_hash_of(snap, scn.extra_state(),
                                 keep_clock=scn.hash_clock)]
     out = {'hashes': hashes, 'violations': [], 'outcome': None,
@@ -364,9 +375,13 @@ def replay(scn, labels, check=True):
     path = []
     for lab in labels:
         if lab.startswith('T') and lab[1:].isdigit():
+            pre = snap
             env.set_clock(int(lab[1:]))
+            snap = _dump()
             path.append(lab)
-            hashes.append(None)
+            out['steps'].append('%s clock' % lab)
+            hashes.append(env.state_hash_of(snap, scn.extra_state(),
+                                            keep_clock=scn.hash_clock))
             continue
         ch = env.enabled_choices()
         ch.extend(scn.externals())
@@ -381,7 +396,7 @@ def replay(scn, labels, check=True):
             env.eager_closure()
         else:
             env.step(c)
-        snap = env.dump_tables()
+        snap = _dump()
         path.append(lab)
         out['steps'].append('%s %s' % (lab, c.info[:160]))
         ne, nm, nr = drain()
